@@ -99,10 +99,55 @@ def _cap_table(test: ast.AST, roles: OccupancyRoles, cell: str) -> Optional[Tupl
 
 
 @tolerant("R11.1-occupancy-roles")
+def check_state_per_instance(prog: Program, rep: Report, cls: ClassInfo, rule: str) -> None:
+    """
+    A container that the methods change in place must be created per instance: a class-level `x = {}` / `[]` / `set()` that no method
+    rebinds through `self.x = ..` is one object shared by every instance (every cell system of a run, every run of a process).
+    """
+    mutating = ("append", "extend", "insert", "remove", "pop", "clear", "add", "discard", "update", "setdefault", "popitem", "sort")
+    n = 0
+    for c in prog.mro(cls):
+        if not c.file.startswith("jellyfysh/"):
+            continue
+        for st in c.node.body:
+            if not (isinstance(st, (ast.Assign, ast.AnnAssign)) and (st.value is not None)):
+                continue
+            targets = st.targets if isinstance(st, ast.Assign) else [st.target]
+            v = st.value
+            is_container = isinstance(v, (ast.Dict, ast.List, ast.Set)) or \
+                (isinstance(v, ast.Call) and isinstance(v.func, ast.Name) and v.func.id in ("dict", "list", "set", "defaultdict", "deque", "OrderedDict"))
+            if not is_container:
+                continue
+            for t in targets:
+                if not isinstance(t, ast.Name):
+                    continue
+                name = t.id
+                rebinds = changed = False
+                for owner in prog.mro(cls) + [x for x in prog.subclasses(cls.name)]:
+                    for m in owner.methods.values():
+                        for x in ast.walk(m):
+                            if isinstance(x, ast.Attribute) and x.attr == name and isinstance(x.value, ast.Name) and x.value.id == "self":
+                                if isinstance(x.ctx, ast.Store):
+                                    rebinds = True
+                            if isinstance(x, ast.Subscript) and isinstance(x.ctx, (ast.Store, ast.Del)) and isinstance(x.value, ast.Attribute) \
+                                    and x.value.attr == name:
+                                changed = True
+                            if isinstance(x, ast.Call) and isinstance(x.func, ast.Attribute) and x.func.attr in mutating \
+                                    and isinstance(x.func.value, ast.Attribute) and x.func.value.attr == name:
+                                changed = True
+                if changed:
+                    n += 1
+                    rep.ob(rule, rebinds, Loc(c.file, st.lineno, c.name), st,
+                           f"`{name}` is created once for the class and changed in place by the methods: all instances share it")
+    if n == 0:
+        rep.ob(rule, True, Loc(cls.file, cls.node.lineno, cls.name), "no class-level container is changed in place", "")
+
+
 def check_occupancy(prog: Program, rep: Report) -> None:
     roles = OccupancyRoles(prog)
     cls = roles.cls
     file = cls.file
+    check_state_per_instance(prog, rep, cls, "R11.1-state-per-instance")
     # canonical forms (private helpers inlined, locals propagated, negated tests flipped); a helper that only serves other
     # methods is judged where it was inlined and as a routine of its own
     methods = {name: canon(prog, cls, fn) for name, fn in cls.methods.items()}
@@ -271,8 +316,12 @@ def check_occupancy(prog: Program, rep: Report) -> None:
         rep.ob("R11.1-initialize-relevant-only", g is not None and isinstance(g.test, ast.Call) and self_attr(g.test.func) == roles.relevant and roles.relevant is not None
                and any(x is s for st in g.body for x in ast.walk(st)), lociI, g.test if g is not None else "guard",
                "only relevant units are recorded")
+        # (a bound method `f = self._cells.position_to_cell` kept in a local is an alias, not a cell)
+        p2c_alias = {a.targets[0].id for a in ast.walk(ini) if isinstance(a, ast.Assign) and isinstance(a.targets[0], ast.Name)
+                     and isinstance(a.value, ast.Attribute) and a.value.attr == "position_to_cell"}
         cell_defs = [a for a in ast.walk(ini) if isinstance(a, ast.Assign) and isinstance(a.targets[0], ast.Name)
-                     and "position_to_cell" in norm(a.value)]
+                     and isinstance(a.value, ast.Call) and a.value.args
+                     and ("position_to_cell" in norm(a.value.func) or (isinstance(a.value.func, ast.Name) and a.value.func.id in p2c_alias))]
         rep.ob("R11.1-initialize-cell-from-position", bool(cell_defs) and all(norm(a.value.args[0]).endswith(".position") for a in cell_defs),
                lociI, cell_defs[0] if cell_defs else "cell", "the cell must be the cell of the unit's position")
 
@@ -627,7 +676,44 @@ def _strip_order(it: ast.AST) -> ast.AST:
     return it
 
 
-def _comprehension_facts(fn: ast.FunctionDef) -> Dict[str, object]:
+def _precomputed_tables(prog: Program, cls: ClassInfo) -> Dict[str, Tuple[str, ast.AST]]:
+    """attribute -> (key variable, value expression) for tables `self.T = {K: V(K) for K in ..}` / `for K in ..: self.T[K] = V(K)` of a class"""
+    out: Dict[str, Tuple[str, ast.AST]] = {}
+    for c in prog.mro(cls):
+        for m in c.methods.values():
+            for n in ast.walk(m):
+                if isinstance(n, ast.Assign) and len(n.targets) == 1 and self_attr(n.targets[0]) and isinstance(n.value, ast.DictComp) \
+                        and len(n.value.generators) == 1 and isinstance(n.value.generators[0].target, ast.Name) \
+                        and norm(n.value.key) == n.value.generators[0].target.id and not n.value.generators[0].ifs:
+                    out.setdefault(self_attr(n.targets[0]), (n.value.generators[0].target.id, n.value.value))
+                if isinstance(n, ast.For) and isinstance(n.target, ast.Name):
+                    for a in n.body:
+                        if isinstance(a, ast.Assign) and len(a.targets) == 1 and isinstance(a.targets[0], ast.Subscript) \
+                                and self_attr(a.targets[0].value) and norm(a.targets[0].slice) == n.target.id:
+                            out.setdefault(self_attr(a.targets[0].value), (n.target.id, a.value))
+    return out
+
+
+def _domain_text(it: ast.AST, tables: Optional[Dict[str, Tuple[str, ast.AST]]]) -> str:
+    it = _strip_order(it)
+    if tables and isinstance(it, ast.Subscript) and self_attr(it.value) in tables and self_attr(it.value) != "_internal_state":
+        kv, val = tables[self_attr(it.value)]
+
+        class S(ast.NodeTransformer):
+            def visit_Name(self, node):
+                return ast.copy_location(ast.parse(ast.unparse(it.slice), mode="eval").body, node) if node.id == kv else node
+        import copy as _copy
+        return norm(_strip_order(S().visit(_copy.deepcopy(val))))
+    return norm(it)
+
+
+def _unresolved_domain(text_: str) -> bool:
+    """a domain that comes out of a table or helper of the tagger which was not resolved: nothing can be said about it"""
+    import re as _re
+    return bool(_re.match(r"self\._(?!internal_state\b)\w+(\[|\()", text_))
+
+
+def _comprehension_facts(fn: ast.FunctionDef, tables: Optional[Dict[str, Tuple[str, ast.AST]]] = None) -> Dict[str, object]:
     """
     Generators of the in-states of a cell tagger, whether written as comprehension clauses or as explicit loops:
     (loop variable, iterated domain, conditions) in nesting order.  Conditions of explicit loops are the path conditions of the
@@ -649,12 +735,12 @@ def _comprehension_facts(fn: ast.FunctionDef) -> Dict[str, object]:
                     for c in path_conditions(l.body, inner[0]) or []:
                         if c in conds:
                             conds.remove(c)
-            facts["domains"].append((norm(n.target), norm(_strip_order(n.iter)), [" and ".join(conds)] if conds else []))
+            facts["domains"].append((norm(n.target), _domain_text(n.iter, tables), [" and ".join(conds)] if conds else []))
         if isinstance(n, ast.comprehension):
             conds = []
             for i in n.ifs:
                 conds.extend(atoms(i))
-            facts["domains"].append((norm(n.target), norm(_strip_order(n.iter)), [" and ".join(conds)] if conds else []))
+            facts["domains"].append((norm(n.target), _domain_text(n.iter, tables), [" and ".join(conds)] if conds else []))
         if isinstance(n, ast.Call) and norm(n.func).endswith("yield_surplus"):
             facts["surplus"] = True
     return facts
@@ -691,15 +777,17 @@ def check_tagger_algebra(prog: Program, rep: Report) -> None:
                f"active cell/unit from yield_active_cells(): {facts['active_from']}",
                "every cell tagger must take the active cell and unit from the same cell occupancy (yield_active_cells)")
     # excluded: occupants of nearby_cells(active_cell)
-    fe_f = _comprehension_facts(fe)
+    fe_f = _comprehension_facts(fe, _precomputed_tables(prog, t_e))
     act = (fe_f["active_from"] or "(?, ?)").strip("()").split(",")[0].strip()
     doms = fe_f["domains"]
     ok_e = len(doms) == 2 and doms[0][1].endswith(f"cells.nearby_cells({act})") and not doms[0][2] \
         and doms[1][1] == f"self._internal_state[{doms[0][0]}]" and not doms[1][2]
+    if not ok_e and any(_unresolved_domain(d[1]) for d in doms):
+        ok_e = None
     rep.ob("R10.1-excluded-is-nearby", ok_e, Loc(t_e.file, fe.lineno, f"{t_e.name}.{m}"), f"domains {doms}",
            "the excluded-cells tagger must pair the active unit with every occupant of every nearby cell of the active cell")
     # bounding: occupants of all cells not in nearby_cells(active_cell)
-    fb_f = _comprehension_facts(fb)
+    fb_f = _comprehension_facts(fb, _precomputed_tables(prog, t_b))
     actb = (fb_f["active_from"] or "(?, ?)").strip("()").split(",")[0].strip()
     cell_gens = [d for d in fb_f["domains"] if d[1].endswith("cells.yield_cells()")]
     ok_b = False
@@ -714,6 +802,8 @@ def check_tagger_algebra(prog: Program, rep: Report) -> None:
         ok_b = ok_b and (len(occ_src) == 1 or f"self._internal_state[{var}]" in yielded)
         extra = [c for c in conds if "nearby_cells" not in c and c != f"self._internal_state[{var}]"]
         ok_b = ok_b and not extra
+    if not ok_b and any(_unresolved_domain(d[1]) for d in fb_f["domains"]):
+        ok_b = None
     rep.ob("R10.1-bounding-is-complement", ok_b, Loc(t_b.file, fb.lineno, f"{t_b.name}.{m}"), f"domains {fb_f['domains']}",
            "the cell-bounding tagger must treat the occupants of exactly the cells that are not nearby cells of the active cell "
            "(the complement of the excluded-cells tagger's domain, from the same cell system)")
@@ -734,6 +824,9 @@ def check_tagger_algebra(prog: Program, rep: Report) -> None:
         if f is None:
             raise AnalysisError(f"{cname}.{fname} not found")
         loops = [n for n in ast.walk(f) if isinstance(n, ast.For) and norm(n.iter).endswith("yield_cells()")]
+        if not loops:
+            rep.ob("R10.2-far-field-domain", None, Loc(c.file, f.lineno, f"{cname}.{fname}"), f"{cname}.{fname}",
+                   "idiom not recognised: no loop over yield_cells() in the routine that builds the far-field tables")
         for lp in loops:
             var = norm(lp.target)
             # everything the loop files (stores into attributes / tables, items appended) happens exactly for the cells that are not
@@ -741,10 +834,15 @@ def check_tagger_algebra(prog: Program, rep: Report) -> None:
             payload = [n for n in ast.walk(lp) if (isinstance(n, ast.Assign) and any(isinstance(t, ast.Subscript) or self_attr(t) for t in n.targets))
                        or (isinstance(n, ast.Call) and isinstance(n.func, ast.Attribute) and n.func.attr == "append")]
 
+            RZ = Resolver(f)
+
             def far_only(conds: List[str]) -> bool:
                 hits = []
                 for c_ in conds:
                     sp = split_atom(c_)
+                    if sp is not None and sp[2].isidentifier() and sp[2] in RZ.defs:
+                        # the nearby cells of the zero cell bound to a local first
+                        sp = (sp[0], sp[1], RZ.text(RZ.defs[sp[2]]))
                     if sp is not None and sp[0] == var and sp[1] == "not in" and ".nearby_cells(" in sp[2] and sp[2].rstrip(")").endswith("zero_cell"):
                         hits.append(c_)
                 return len(hits) == 1 and len(conds) == 1
@@ -761,6 +859,8 @@ def check_tagger_algebra(prog: Program, rep: Report) -> None:
     # target lookup
     med = prog.class_named("Mediator")
     ga = med.methods.get("get_arguments_cell_veto_event_handler")
+    if ga is not None:
+        ga = canon(prog, med, ga)          # private helpers of the mediator read in place
     ta = prog.class_named("TagActivator").methods.get("get_info_internal_state")
     ok1 = ga is not None and any(isinstance(n, ast.Call) and norm(n.func).endswith("get_info_internal_state") and len(n.args) == 2
                                   and norm(n.args[1]) == param_names(ga)[0] for n in ast.walk(ga))
@@ -769,7 +869,15 @@ def check_tagger_algebra(prog: Program, rep: Report) -> None:
            "target = internal_state[sampled cell] of the veto tagger", "the target of a cell-veto event must be the occupant list of the sampled cell in the veto tagger's own cell occupancy")
     if ga is not None:
         rets = [n for n in ast.walk(ga) if isinstance(n, ast.Return)]
-        rep.ob("R10.2-target-all-occupants", _extracts_every(rets, ga) and any(norm(r.value) == "(None,)" for r in rets),
+        # `return A if c else B` stands for two returns
+        split_ = []
+        for r in rets:
+            vals_ = [r.value]
+            while any(isinstance(v_, ast.IfExp) for v_ in vals_):
+                vals_ = [w for v_ in vals_ for w in ((v_.body, v_.orelse) if isinstance(v_, ast.IfExp) else (v_,))]
+            split_ += [ast.copy_location(ast.Return(value=v_), r) for v_ in vals_]
+        rets = split_
+        rep.ob("R10.2-target-all-occupants", _extracts_every(rets, ga) and any(r.value is not None and norm(r.value) == "(None,)" for r in rets),
                Loc(med.file, ga.lineno, "Mediator.get_arguments_cell_veto_event_handler"), "extract every occupant, or (None,) for an empty cell",
                "every occupant of the target cell must be handed to the veto handler; an empty cell yields None")
     # veto handler: target cell = translate(active_cell, sampled relative cell)
